@@ -83,12 +83,9 @@ def run(ctx):
             if len(f) == 3 and f[0] == "stat":
                 stats[f[1]] = int(f[2])
 
-    # history stage 1: truncated-key collision probe, sequential calls in one process of its own (first, so that it
-    # still reports if the concurrent stage below takes the process down)
-    rc, out = C.sh([hb, "probe", probe_path], env=ctx.env(), timeout=1200)
-    if rc != 0:
-        raise C.BuildError("harness probe failed: " + out[-2000:])
-    take_stats(out)
+    # history stage 1 (own process, one goroutine, started now and collected after the concurrent stage): truncated-key
+    # collision probe + one-factor-at-a-time call history; a separate process, so it still reports if stage 2 dies
+    probe_proc = subprocess.Popen([hb, "probe", probe_path, ctx.tier], env=ctx.env(), stdout=subprocess.PIPE, stderr=subprocess.STDOUT)
     # stage 2: all generated cases in one long-lived process, 16 goroutines
     rc, out = C.sh([hb, "gen", ctx.tier, gen_path], env=ctx.env(), timeout=3000)
     gen_failure = None
@@ -96,6 +93,14 @@ def run(ctx):
         gen_failure = out[-2000:]
         open(gen_path, "w").close()
     take_stats(out)
+    try:
+        pout, _ = probe_proc.communicate(timeout=3000)
+    except subprocess.TimeoutExpired:
+        probe_proc.kill()
+        raise C.BuildError("harness probe timed out")
+    if probe_proc.returncode != 0:
+        raise C.BuildError("harness probe failed: " + pout.decode("utf-8", "replace")[-2000:])
+    take_stats(pout.decode("utf-8", "replace"))
     with open(cases_path, "w") as f:
         f.write(open(probe_path).read())
         f.write(open(gen_path).read())
@@ -257,6 +262,8 @@ def run(ctx):
         return 0 if any(k in e and k in g and e[k] != g[k] for k in ("verdict", "class")) else 1
     ctx.violations.sort(key=weight)
 
+    minimise_histories(ctx, hb)
+
     cov = C.proof_coverage(
         pr, "make -f Makefile.coq theories/Props/C18.vo (coqc 8.16.1) in /verif/coq",
         ["crypto/sha256, golang.org/x/crypto/pbkdf2 and math/big.Int.Exp are Section variables of the theorems "
@@ -280,7 +287,10 @@ def run(ctx):
                  "guarded array in four orders, whole backing arrays compared before/after; every x/r case re-run in a fresh process and "
                  "compared with the answer of the long-lived process (history independence); truncated-key collision probe: password pairs "
                  "(birthday search with the harness's reference SHA-256) whose PH1 resp. SH(pw,salt1) agree on the first / last 4 bytes, "
-                 "called A/A, B/A, B/B, A/B (typed/registered) sequentially in one process",
+                 "called A/A, B/A, B/B, A/B (typed/registered) sequentially in one process; one-factor-at-a-time history in the same "
+                 "single-goroutine process: base / variant differing only in salt2, salt1, password, B, client random, g, p / base ..., "
+                 "each variant twice, variants back to back, each call followed by its wrong-password counterpart and itself again, "
+                 "every call judged by the reference server for its own inputs",
          "samples": samples, "input_distribution": stats, "disagreements_checked": disagreements,
          "input_layouts": layouts, "fresh_process_reruns": fresh_checked, "fresh_process_differences": fresh_diff,
          "exchanges_judged_by_reference_server": exchanges, "reference_server_verdicts": verdicts,
@@ -290,6 +300,36 @@ def run(ctx):
         "SHA-256 returns 32 bytes; big.Int.Exp(b, e, m) = b^e mod m for e >= 0, m > 0; big.Int.Bytes/SetBytes are big-endian",
         "server-side parameters: 1 < p < 2^2048 sent as 256 bytes (2fa.go itself validates neither p nor g)",
         "wrong password rejected: only under injectivity of SHA-256 on the two compared strings and S_client <> S_server (C18_wrong_password_partial)"])
+
+
+def minimise_histories(ctx, hb, limit=5):
+    """For the violations that will be reported: find the shortest suffix of the earlier same-process calls that still
+    reproduces the observed (wrong) answer, and keep only that as the replay history."""
+    done = 0
+    for key, text, rep in ctx.violations:
+        if done >= limit:
+            break
+        hist = (rep or {}).get("history")
+        if not hist or rep.get("kind") != "x":
+            continue
+        done += 1
+        seen = rep.get("got", {})
+        for k in (1, 2, 3, 4):
+            if k >= len(hist):
+                break
+            seq = ctx.work + "/min_seq.txt"
+            with open(seq, "w") as fh:
+                for h in hist[-k:] + [rep["inputs"]]:
+                    fh.write("\t".join(h) + "\n")
+            rc, out = C.sh([hb, "seq", seq], env=ctx.env(), timeout=1200)
+            if rc != 0:
+                break
+            f = out.strip().split("\n")[-1].split("\t")
+            if len(f) >= 4 and (f[0], f[2], f[3]) == (seen.get("class"), seen.get("M1"), seen.get("verdict")):
+                rep["history_full_length"] = len(hist)
+                rep["history"] = hist[-k:]
+                rep["history_passwords"] = rep.get("history_passwords", [])[-k:]
+                break
 
 
 def history_independence(ctx, hb, jobs):
